@@ -5,6 +5,7 @@ import HbsModel.Lemmas.CompilePlain
 import HbsModel.Lemmas.CompileComment
 import HbsModel.Lemmas.RenderPlain
 import HbsModel.Lemmas.Assoc
+import HbsModel.Lemmas.RawBlock
 /-
   C03  Template text outside tags is reproduced verbatim.
 -/
@@ -299,5 +300,78 @@ example : standalone ['a', '\n', ' ', ' '] [' ', '\n', 'b'] false = true
   refine ⟨by decide, by decide, ⟨by simp [PlainText.noOpen], by simp, by simp⟩, ⟨by simp [PlainText.noClose], by simp⟩, ?_⟩
   intro t h
   simp [List.dropWhile, isPestWs] at h
+
+/-! ### the body of a raw block – at source level -/
+
+/-- the block element `{{{{raw}}}}b{{{{/raw}}}}` compiles to writes `b` and leaves the render state as it was -/
+theorem raw_block_writes (reg : Registry) (root : Json) (rc0 : RC) (b : Str) (lc : Nat × Nat)
+    (hi : rc0.indentString = none) (hct : rc0.currentTemplate = none)
+    (hl : assocGet rc0.localHelpers ['r', 'a', 'w'] = none) (hr : assocGet reg.helpers ['r', 'a', 'w'] = some .raw) :
+    WritesText reg root rc0 (.block (PlainText.rawHT (Tmpl.empty.pushElement (.raw b) lc.1 lc.2))) b := by
+  intro fuel rc out hq hf
+  have hl' : assocGet rc.localHelpers ['r', 'a', 'w'] = none := by rw [hq]; exact hl
+  have hh : helperFromTemplate reg root (fuel + 4) (PlainText.rawHT (Tmpl.empty.pushElement (.raw b) lc.1 lc.2)) rc out
+      = .ok { name := ['r', 'a', 'w'], params := [], hash := [], template := some (Tmpl.empty.pushElement (.raw b) lc.1 lc.2), inverse := none, blockParam := none, block := true } rc out := by
+    simp [helperFromTemplate, PlainText.rawHT, PlainText.rawOpen, HelperG.new, expandAsName, expandParams, expandHash, RM.bnd_apply]
+  have hm1 := quiet_modifyAux rc0 rc (fun r => { r with contentProduced := false, indentBeforeWrite := rc.indentBeforeWrite || ((PlainText.rawHT (Tmpl.empty.pushElement (.raw b) lc.1 lc.2)).indentBeforeWrite && r.trailingNewline) }) out hq (hq.flags _ _ _)
+  have hcall := raw_helper_is_body reg root (fuel + 3) { name := ['r', 'a', 'w'], params := [], hash := [], template := some (Tmpl.empty.pushElement (.raw b) lc.1 lc.2), inverse := none, blockParam := none, block := true } (Tmpl.empty.pushElement (.raw b) lc.1 lc.2) rfl
+  have hc4 : callHelper reg root (fuel + 4) .raw { name := ['r', 'a', 'w'], params := [], hash := [], template := some (Tmpl.empty.pushElement (.raw b) lc.1 lc.2), inverse := none, blockParam := none, block := true } = _ := hcall
+  simp only [renderElem, renderHelper, RM.bind_def, RM.bnd_apply, hh, RM.get_apply, hl', hr, hm1, hc4]
+  have hibw : (PlainText.rawHT (Tmpl.empty.pushElement (.raw b) lc.1 lc.2)).indentBeforeWrite = false := rfl
+  simp only [hibw, Bool.false_and, Bool.or_false]
+  have hqA : Quiet rc0 { rc with contentProduced := false } := hq.flags _ _ _
+  obtain ⟨rc2, out2, hbody, hq2, hf2, ht2⟩ := render_text_template reg root rc0 { rc with contentProduced := false } out b lc fuel hi hct hqA hf
+  rw [hbody]
+  simp only []
+  have hqG : Quiet rc0 ((fun rc_1 : RC => if rc_1.contentProduced = true then { rc_1 with indentBeforeWrite := rc_1.trailingNewline } else { rc_1 with contentProduced := rc.contentProduced, indentBeforeWrite := rc.indentBeforeWrite }) rc2) := by
+    by_cases hcp : rc2.contentProduced = true
+    · simp only [hcp, ↓reduceIte]; exact Quiet.flags hq2 _ _ _
+    · simp only [hcp, ↓reduceIte]; exact Quiet.flags hq2 _ _ _
+  exact ⟨_, _, quiet_modifyAux rc0 _ _ out2 hq2 hqG, hqG, hf2, ht2⟩
+
+/-- **render(L ++ {{{{raw}}}}b{{{{/raw}}}} ++ R) = L ++ b ++ R** – from the source string to the bytes, for EVERY body `b` without a
+    backslash, without `{{{{` inside and not ending in `{` – tags (`{{x}}`, `{{#if}}`, `{{!c}}`), lone braces, quotes,
+    non-ASCII text, line breaks, and LEADING AND TRAILING WHITESPACE included: the body is written byte for byte –, every
+    text `L` that ends in, and every text `R` that begins with, a character that is neither a blank nor a line break (so that
+    neither tag of the block is alone on its line and the standalone-line rule of C11 has nothing to remove), and any data.
+    The whitespace at the start of the body is skipped by pest's implicit WHITESPACE between `raw_block_start` and
+    `raw_block_text` (the pair of the text begins behind it: `rawBlock_tagAt`) and put back by compile2's "leading space
+    fix" (`step_raw_body`: the element is cut from the end of the opening tag, not from the start of the pair) – the defect
+    recorded as F1 was the absence of exactly this. -/
+theorem raw_block_body_is_verbatim (r : Registry) (fs : FS) (X b R2 : Str) (c c' : Char) (data : Json) (hdev : r.dev = false)
+    (hL : PlainText.TextBeforeTag (X ++ [c])) (hcb : isBlank c = false) (hcn : isNewline c = false)
+    (hb : PlainText.RawBody b) (hc' : isPestWs c' = false) (hR : PlainText.noOpen (c' :: R2))
+    (hraw : assocGet r.helpers ['r', 'a', 'w'] = some .raw) :
+    r.renderTemplate fs ((X ++ [c]) ++ PlainText.rawSrc b ++ (c' :: R2)) data = .ok ((X ++ [c]) ++ b ++ (c' :: R2)) := by
+  unfold Registry.renderTemplate Registry.renderTemplateToWrite Registry.renderTemplateWithContextToWrite
+    Registry.compileForRenderTemplate
+  obtain ⟨m, lc, hcomp⟩ := PlainText.compile_text_raw_text X b R2 c c' { preventIndent := r.preventIndent } hL hcb hcn hb hc' hR
+  rw [hcomp]
+  simp only [Registry.renderResolved, hdev, Bool.not_false, ↓reduceIte]
+  let ets : List (Elem × Str) := [(.raw (X ++ [c]), X ++ [c]), (.block (PlainText.rawHT (Tmpl.empty.pushElement (.raw b) lc.1 lc.2)), b),
+    (.raw (c' :: R2), c' :: R2)]
+  have hel : [Elem.raw (X ++ [c])] ++ [Elem.block (PlainText.rawHT (Tmpl.empty.pushElement (.raw b) lc.1 lc.2))] ++ [Elem.raw (c' :: R2)]
+      = ets.map (·.1) := rfl
+  have htxt : (ets.map (·.2)).flatten = (X ++ [c]) ++ b ++ (c' :: R2) := by simp [ets]
+  rw [hel]
+  have hw : ∀ p ∈ ets, WritesText r data { ({ rootTemplate := none } : RC) with currentTemplate := none } p.1 p.2 := by
+    intro p hp
+    simp only [ets, List.mem_cons, List.not_mem_nil, or_false] at hp
+    rcases hp with rfl | rfl | rfl
+    · exact writes_raw r data _ rfl _
+    · exact raw_block_writes r data _ b lc rfl rfl rfl hraw
+    · exact writes_raw r data _ rfl _
+  have hlen : ets.length + 12 ≤ renderFuel := by
+    have : renderFuel = 4000 := rfl
+    simp [ets]; omega
+  have := render_writes_template r data none ets m { rootTemplate := none } hlen hw
+  simp only [Tmpl.name] at this ⊢
+  rw [this, htxt]
+
+/-- non-vacuity: the crate's registry binds `raw` to the raw helper; a body that begins with whitespace and a line break and
+    holds a tag, a comment and lone braces -/
+example : assocGet Registry.new.helpers ['r', 'a', 'w'] = some .raw ∧
+    PlainText.RawBody [' ', '\n', '{', '{', 'x', '}', '}', ' ', '{', '{', '!', 'c', '}', '}', '}', ' '] := by
+  refine ⟨by rfl, ⟨by simp [PlainText.noOpen4], by simp, by simp⟩⟩
 
 end Hbs.C03
